@@ -975,8 +975,15 @@ def generate(repo):
                 if list(binds.values()) != ['data.shape']:
                     continue
                 s = list(binds)[0]
-                tr = Tr({s: 's', 'dx': 'dx'}, mode='rat',
-                        funcs={'fftrange': lambda args: f'(((fftrangeLo {args[0]} + i : Int)) : Rat)'})
+                sr = '((s : Int) : Rat)'
+
+                def _fftrange(args):
+                    if args[0] != sr:
+                        raise Untranslatable('fftrange of something other than the axis length')
+                    return '(((fftrangeLo s + i : Int)) : Rat)'
+                arange = lambda args: '((i : Int) : Rat)' if args == [sr] else (_ for _ in ()).throw(Untranslatable('arange form'))  # noqa: E731
+                tr = Tr({s: sr, 'dx': 'dx'}, mode='rat',
+                        funcs={'fftrange': _fftrange, 'np.arange': arange, 'arange': arange})
                 elem_term = tr.expr(elt)
                 for k, t in enumerate(st.targets[0].elts):
                     state[t.id] = k
